@@ -270,13 +270,24 @@ def run(ctx):
         # the message of the lexer error, interpreted on probe texts (LF and CRLF layouts): the last shown line contains the illegal character and the caret is
         # under it
         from ..interp import Interp, Obj, Raised, Env
-        probe_texts = ['select #', 'select a\nfrom t #', 'select a\n  from t\nwhere # x', '#', 'select a\r\nfrom t\r\nwhere ^ x', 'a\r\n#', 'select 1\n\n\n  #']
+        probe_texts = ['select #', 'select a\nfrom t #', 'select a\n  from t\nwhere # x', '#', 'select a\r\nfrom t\r\nwhere ^ x', 'a\r\n#', 'select 1\n\n\n  #',
+                       # line ends inside a comment / a quoted string / a quoted name are consumed by rules that do not advance the lexer's line counter
+                       'select /* a\nb */ 1 #', "select 'x\ny' as s,\n #", 'select a\n/* c1\n c2 */\nfrom t #', 'select `a\nb`\nfrom t\nwhere #']
+        import re as _re2
+
+        def counted_lines(text, upto):
+            # the lexer's own line counter when it reaches offset `upto`: only the newline rule (between tokens) advances it
+            n_ = 1
+            for m_ in _re2.finditer(r"/\*.*?\*/|--[^\n]*|'[^']*'|\"[^\"]*\"|`[^`]*`|\n+|.", text[:upto], _re2.S):
+                if m_.group(0).startswith('\n'):
+                    n_ += len(m_.group(0))
+            return n_
         for text in probe_texts:
-            idx = min(i for i in (text.find('#'), text.find('^')) if i >= 0)
+            idx = min(i for i in (text.rfind('#'), text.rfind('^')) if i >= 0)
             it = Interp({}, {'LexError': lambda itp, *a: Obj('LexError', args=tuple(a))})
             it.module = ctx.src.tree(lex.file)
-            self_ = Obj(lex.cls, text=text, index=idx)
-            tok = Obj('Token', value=text[idx:], index=idx, lineno=text.count('\n', 0, idx) + 1, type='ERROR')
+            self_ = Obj(lex.cls, text=text, index=idx, lineno=counted_lines(text, idx))
+            tok = Obj('Token', value=text[idx:], index=idx, lineno=counted_lines(text, idx), type='ERROR')
             msg = None
             try:
                 it.call_function(ef, [self_, tok], {}, Env())
